@@ -277,6 +277,9 @@ def pools():
                # a harmless early-started task between the running stage and a conflicting candidate
                ["wB", "wA,rB", "wC", "rB"],
                ["wA", "rB", "wA"], ["-/r=wR0", "rA", "-/r=wR0"], ["rC/r=wR0", "wA", "wB/r=wR0"], ["rC/r=rR0", "wA", "wC/r=wR0", "rB"]]
+    # all ordered quadruples over {rA, wA, wB}: has_run bookkeeping and early starts over three or four stages
+    k4 = ["rA", "wA", "wB"]
+    P["P8"] = [[a, b, c, d] for a in k4 for b in k4 for c in k4 for d in k4]
     P["PC"] = [
         ["wC", "rA", "wA"], ["wB,rC", "rA", "wA,wC"], ["wC/f=hA", "wC/f=nA", "rC"], ["wB", "wC", "rA", "wA"],
     ]
@@ -302,6 +305,7 @@ def main():
     # tables reached only through entry views (by the earlier or by the later task), ParSystem entry views,
     # and tasks that conflict on a component and on a resource at once
     quick += [("PQ", s) for s in P["PQ"]]
+    quick += [("P8", s) for s in (["wA", "rA", "wA", "rA"], ["wB", "wA", "rA", "wA"], ["rA", "wA", "wB", "wA"])]
     qset = {tuple(s) for _, s in quick}
     extra = []
     for p, lst in P.items():
